@@ -406,6 +406,9 @@ class Dimension:
 
     def scale(self, zero: "Quantity", name: str, symbol: str) -> "Unit":
         """Define a new scale of this dimension, setting a zero point of another unit"""
+        if not isinstance(zero, Quantity):
+            # refuse before anything is registered
+            raise TypeError(f"The zero point of a scale should be a Quantity, not {zero!r}")
         unit = self.unit(name, symbol)
         conversions.translate(unit, zero)
         return unit
